@@ -2,6 +2,8 @@
 
 package zygo
 
+import "fmt"
+
 // C05 — errors are contained: a failed evaluation restores the interpreter.
 // The C02 program generators run with a host function that fails on demand:
 // "the k-th call fails" is a solver variable for every k, so every failure
@@ -407,4 +409,81 @@ func vh_C05_redefinition() {
 		}
 	}
 	vReachIdx("redefinition", k, len(vC05Redefs))
+}
+
+// vh_C05_hostapply: an embedding program's own builtin calls back into the
+// interpreter (env.Apply on a script function), the callback fails, the
+// builtin handles that failure itself and returns a normal value.  The
+// failure stays inside the callback: the program goes on as written, its
+// value is right, the stacks are at rest afterwards.
+func vh_C05_hostapply() {
+	vFormatOpaque(true)
+	env := vEvalEnv(0)
+	env.AddFunction("hostapply", func(env *Zlisp, name string, args []Sexp) (Sexp, error) {
+		if len(args) < 1 {
+			return SexpNull, fmt.Errorf("verif: hostapply needs a function")
+		}
+		f, isF := args[0].(*SexpFunction)
+		if !isF {
+			return SexpNull, fmt.Errorf("verif: hostapply needs a function")
+		}
+		res, err := env.Apply(f, args[1:])
+		if err != nil {
+			return &SexpStr{S: "failed"}, nil // handled here
+		}
+		return res, nil
+	})
+	h := vSmallInt("h")
+	fails := vChoice("failure", 4)
+	bad := []string{
+		`(defn cb [x] (+ x nosuchname))`,
+		`(defn cb [x] (let [y x] (cond (< y 3000000000) (car 7) y)))`,
+		`(defn cb [x] (for [(def i 0) (< i 3) (set i (+ i 1))] (cond (== i 1) (nosuchfn i) i)))`,
+		`(defn inner [z] (+ z nosuchname)) (defn cb [x] (+ 1 (inner x)))`,
+	}[fails]
+	site := vChoice("site", 6)
+	prog := []string{
+		`(def r (hostapply cb 9001)) (list r 30 9001)`,
+		`(defn g [] (hostapply cb 9001) 30) (list (g) 9001)`,
+		`(hostapply cb 9001) (+ 9001 1)`,
+		`(defn g [] (let [r (hostapply cb 9001)] (list r 9001))) (g)`,
+		`(def acc []) (for [(def k 0) (< k 2) (set k (+ k 1))] (hostapply cb k) (set acc (append acc k))) (list acc 9001)`,
+		`(begin (hostapply cb 1) (hostapply cb 2) (+ 9001 2))`,
+	}[site]
+	want := []string{
+		`(list "failed" 30 9001)`,
+		`(list 30 9001)`,
+		`(+ 9001 1)`,
+		`(list "failed" 9001)`,
+		`(list [0 1] 9001)`,
+		`(+ 9001 2)`,
+	}[site]
+	var res Sexp
+	for _, f := range vT(env, bad+" "+prog, h) {
+		var err error
+		var p bool
+		res, err, p = vEval(env, f)
+		vAssert(!p, "hostapply-no-panic")
+		vAssert(err == nil, "handled-callback-failure-does-not-fail-the-program")
+		if p || err != nil {
+			return
+		}
+		vC04AtRest(env, "after-handled-callback-failure")
+	}
+	twin := vEvalEnvs[1]
+	var exp Sexp
+	for _, f := range vT(twin, want, h) {
+		var err error
+		var p bool
+		exp, err, p = vEval(twin, f)
+		if err != nil || p {
+			vAssert(false, "expected-value-evaluates")
+			return
+		}
+	}
+	vAssert(vSexpEq(res, exp), "program-continues-after-a-handled-callback-failure")
+	r2, e2, p2 := vEvalString(env, `(+ 1 2)`)
+	ri, isInt := r2.(*SexpInt)
+	vAssert(!p2 && e2 == nil && isInt && ri.Val == 3, "interpreter-usable-afterwards")
+	vReachIdx("hostapply", site, 6)
 }
